@@ -129,6 +129,14 @@ def parse_contracts(path):
                 cur.loops[idx] = {"head": m.group(2), "lines": [], "src_line": ln, "iter": m.group(3)}
                 sect = cur.loops[idx]["lines"]
                 continue
+            if st.startswith("@in "):
+                m = re.match(r'@in\s+"(.*?)"\s+(before|after|begin|end)(?:\s+"(.*)")?\s*$', st)
+                if not m or cur is None:
+                    raise Undecided("bad-contract-file", f"{path}:{ln}: {st}")
+                ins = {"where": m.group(2), "pat": m.group(3) or "", "scope": m.group(1), "lines": [], "src_line": ln}
+                cur.inserts.append(ins)
+                sect = ins["lines"]
+                continue
             if st.startswith("@before ") or st.startswith("@after "):
                 m = re.match(r'@(before|after)\s+"(.*)"\s*$', st)
                 if not m or cur is None:
@@ -374,11 +382,40 @@ def splice_item(item, contracts, unit_name, used, canaries):
                 inmark.append(open_m)
                 if open_m and ");" in l:
                     open_m = False
-            hits = [i for i, l in enumerate(lines) if pat in _nows(l) and not inmark[i]]
+            lo, hi_ = 0, len(lines)
+            if ins.get("scope"):
+                sp = _nows(ins["scope"])
+                sh = [i for i, l in enumerate(lines) if sp in _nows(l) and not inmark[i]]
+                if len(sh) != 1:
+                    raise Undecided("lost-anchor", f"{q}: scope \"{ins['scope']}\" matches {len(sh)} lines")
+                lo = sh[0]
+                depth = 0
+                hi_ = lo
+                while hi_ < len(lines):
+                    for ch in lines[hi_]:
+                        if ch in "([{":
+                            depth += 1
+                        elif ch in ")]}":
+                            depth -= 1
+                    if depth <= 0:
+                        break
+                    hi_ += 1
+            blk = _block(f"{unit_name}|{q}|{ins['where']}|{k}", ins["lines"]).rstrip("\n").split("\n")
+            if ins.get("scope") and ins["where"] == "begin":
+                lines[lo + 1:lo + 1] = blk
+                text = text[:start] + "\n".join(lines) + text[end:]
+                continue
+            if ins.get("scope") and ins["where"] == "end":
+                # before the tail expression of the scope (its last line when that is not a statement), else before the closing brace
+                last = hi_ - 1
+                at = last if (last > lo and not lines[last].rstrip().endswith((";", "}", "{"))) else hi_
+                lines[at:at] = blk
+                text = text[:start] + "\n".join(lines) + text[end:]
+                continue
+            hits = [i for i, l in enumerate(lines) if lo <= i <= hi_ and pat in _nows(l) and not inmark[i]]
             if len(hits) != 1:
                 raise Undecided("lost-anchor", f"{q}: @{ins['where']} \"{ins['pat']}\" matches {len(hits)} lines")
             i = hits[0]
-            blk = _block(f"{unit_name}|{q}|{ins['where']}|{k}", ins["lines"]).rstrip("\n").split("\n")
             if ins["where"] == "before":
                 lines[i:i] = blk
             else:
@@ -546,6 +583,27 @@ def assemble(unit, ex, extra_spec=""):
             parts.append(f"//@@ file {os.path.relpath(p, VERIF)}\n" + open(p).read().rstrip("\n") + "\n//@@ end\n")
     if extra_spec:
         parts.append(extra_spec)
+    # several prelude/spec files may import the same names: expand `use a::{x, y};` and keep the first of each
+    seen_use = set()
+    for k in range(len(parts)):
+        out_lines = []
+        for l in parts[k].split("\n"):
+            m1 = re.match(r"^use ([\w:]+)::\{([^}]*)\};\s*$", l)
+            m2 = re.match(r"^use ([\w:]+(?:::\*)?);\s*$", l)
+            if m1:
+                for n in [x.strip() for x in m1.group(2).split(",") if x.strip()]:
+                    u = f"use {m1.group(1)}::{n};"
+                    if u not in seen_use:
+                        seen_use.add(u)
+                        out_lines.append(u)
+            elif m2:
+                u = f"use {m2.group(1)};"
+                if u not in seen_use:
+                    seen_use.add(u)
+                    out_lines.append(u)
+            else:
+                out_lines.append(l)
+        parts[k] = "\n".join(out_lines)
     canaries = []
     # ---- callee contracts imported from another unit (modular verification: contracts, not bodies)
     for imp in unit.get("import_contracts", []):
